@@ -1,4 +1,5 @@
 import OomdProofs.Kill
+import OomdProofs.Hook
 
 /-!
 # C03 — Victim order: prefer > normal > avoid, oom.group kept whole, fallback on failure
@@ -202,5 +203,84 @@ example : (plan cfg0 rank0 rank0_ok.sub [tree0]).map View.id = [4, 3, 5] := by
   simp [plan, rank0, tree0, leaf, none4, cfg0, sortDesc, insertDesc, attempts_unfold, descends, mayRecurse,
     View.children, View.info, View.id, View.pref, prefOf, rkLe, Pref.toInt,
     OomdModel.Generated.killPrefAvoid, OomdModel.Generated.killPrefNormal, OomdModel.Generated.killPrefPrefer]
+
+/-! ## the fallback stack across a prekill-hook wait (serialise on the deferring tick, restore on the resuming tick) -/
+
+section HookWait
+open OomdModel.Hook
+
+mutual
+theorem findV_path (p : String) : ∀ (t v : View), findV p t = some v → v.info.path = p
+  | .mk i cs, v, h => by
+    unfold findV at h
+    split at h
+    · cases h; simpa [View.info] using ‹i.path = p›
+    · exact findF_path p cs v h
+theorem findF_path (p : String) : ∀ (l : List View) (v : View), findF p l = some v → v.info.path = p
+  | [], v, h => by simp [findF] at h
+  | c :: cs, v, h => by
+    unfold findF at h
+    split at h
+    · rename_i w hw
+      cases h
+      exact findV_path p c _ hw
+    · exact findF_path p cs v h
+end
+
+/-- a reference that deserialises names the view it yields: same path, same id -/
+theorem deser_ser {top : List View} {r : SRef} {v : View} (h : deser top r = some v) : ser v = r := by
+  have hid := OomdModel.Hook.deser_id h
+  have hp : v.info.path = r.path := by
+    unfold deser at h
+    split at h
+    · rename_i w hw
+      split at h
+      · cases h; exact findF_path r.path top _ hw
+      · cases h
+    · cases h
+  cases r
+  simp only [ser, SRef.mk.injEq]
+  exact ⟨hp, hid⟩
+
+/-- **The restored fallback stack is a prefix of the serialised one, in the same order.**  Whatever happened to the tree while
+the hook ran, `deserStack` (the loop in `resumeFromPrekillHook`) yields the candidates of the serialised stack from the top
+down to the first one that cannot be found again - it never reorders candidates and never invents one. -/
+theorem restored_stack_is_prefix (top : List View) (refs : List SRef) :
+    ∃ n, (deserStack top refs).map ser = refs.take n := by
+  induction refs with
+  | nil => exact ⟨0, rfl⟩
+  | cons r rs ih =>
+    unfold deserStack
+    cases h : deser top r with
+    | none => exact ⟨0, rfl⟩
+    | some v =>
+      obtain ⟨n, hn⟩ := ih
+      refine ⟨n + 1, ?_⟩
+      simp only [List.map_cons, List.take_succ_cons, hn, deser_ser h]
+
+/-- **Unchanged candidates: the fallback continues exactly where the deferring loop stopped.**  If every candidate left on the
+stack when the hook deferred the kill is still the same cgroup on the resuming tick, the restored stack is that stack - same
+candidates, same (rank) order - so after a failed kill of the intended victim the next-best candidate is tried next. -/
+theorem fallback_stack_survives_hook_wait (top : List View) (stack : List View)
+    (h : ∀ v ∈ stack, deser top (ser v) = some v) :
+    deserStack top (stack.map ser) = stack := by
+  induction stack with
+  | nil => rfl
+  | cons v vs ih =>
+    simp only [List.map_cons]
+    unfold deserStack
+    rw [h v (List.mem_cons_self ..)]
+    simp only
+    rw [ih (fun w hw => h w (List.mem_cons_of_mem _ hw))]
+
+/-- and the loop that runs after the intended victim's failed kill is `hloop` on exactly that stack -/
+theorem fallback_is_loop_on_restored_stack (cfg : HCfg) (rank : List View → List View) (dl : Option Nat)
+    (top stack : List View) (p : Pending) (hp : p.stack = stack.map ser)
+    (h : ∀ v ∈ stack, deser top (ser v) = some v) (env : HEnv) :
+    fallback cfg rank dl top p env = hloop cfg rank dl (fsize stack + 1) stack 1 env := by
+  unfold fallback
+  rw [hp, fallback_stack_survives_hook_wait top stack h]
+
+end HookWait
 
 end C03
